@@ -7,13 +7,16 @@ PROP = {'gen': [],
  'props_file': 'theories/Props/C07.v',
  'props_module': 'Props.C07',
  'corr_check': 'SNT.Corr.C07Corr.c07_check (model Surface/Shape.v vs surf_n_term::surface::{Shape, Surface, SurfaceMut} through chains of '
-               'view_owned/transpose over owned and &mut bases)',
+               'view_owned/transpose over owned, &mut, & and Arc bases, the last step taken through view / view_mut / as_ref / as_mut)',
  'level_text': 'Coq theorems: for every root size and every finite chain of view/transpose with arbitrary selectors the Shape computed by '
                'the code represents the window the same operations cut out of a plain matrix (induction over the chain, using the C08 '
                'theorem for selectors); for every represented shape offsets are in bounds and injective (the obligation of the unsafe '
-               "iter_mut), get/iter/iter_mut/fill_with touch exactly the window's cells, each once, row-major, and fill_with leaves every "
-               'other element unchanged. insert/map/to_owned are covered by the correspondence only. Model tied to the code by '
-               'differential runs observing shapes, reads, handed-out addresses and the whole backing vector after each mutation.',
+               "iter_mut), get/iter/fill_with/map touch exactly the window's cells, each once, row-major; iter_mut hands out exactly "
+               'those cells in that order; fill_with leaves every other element unchanged; insert writes only window cells (for '
+               'positions whose usize index arithmetic does not overflow: ..._upto_usize; beyond that the debug build panics before '
+               'writing); is_empty says exactly "no cell" for every chain-built shape. Model tied to the code by differential runs '
+               'observing shapes, reads (get, get_mut, iter, nth, position, with_position), handed-out addresses and the whole backing '
+               'vector after each mutation (fill, fill_with, clear, set, insert), through every view kind of the API.',
  'level_note': 'Trusted: Coq kernel; hand-written model Surface/Shape.v validated by correspondence; the memory model of rustc is not '
                'modelled (the unsafe block is covered through the arithmetic obligation: distinct in-bounds offsets). No axioms.',
  'technique': 'Coq proof (representation invariant by induction over the view chain; nia/lia; NoDup of handed-out offsets) + '
@@ -30,4 +33,7 @@ PROP = {'gen': [],
                   'Rust harness (generators, canonical printing of observations) and the case files it writes; differential testing '
                   'validates the model, it is not the theorem'],
  'assumptions': ['root surfaces have height, width <= i64::MAX and a backing vector of at least H*W elements (SurfaceOwned::new/new_with)',
-                 'insert, map and to_owned_surf are validated by correspondence against the window semantics, not proved']}
+                 'the view kinds (view_owned, view, view_mut, as_ref, as_mut, &S, &mut S, Arc<S>, Box<S>) all reduce to (shape, data) in '
+                 'the model; that they do is validated by the correspondence run through each of them, not proved',
+                 'clear, set, get_mut, SurfaceIter::nth/position/with_position are modelled and compared, without theorems of their own '
+                 '(clear is fill with the default; get_mut addresses like get)']}
